@@ -24,6 +24,7 @@ OBLIGATIONS = (
     + [G("mem.home%d" % h, "OP_MEM", 5, Q if h in (0, 3) else T, ["HOME=%d" % h]) for h in range(5)]
     + [G("rem.home%d" % h, "OP_REM", 5, Q if h in (1, 4) else T, ["HOME=%d" % h, "NO_OWNERSHIP"]) for h in range(5)]
     + [G("sweep.noown.nc3", "OP_SWEEP", 5, Q, ["NO_OWNERSHIP"], nc=3, timeout=1800),
+       G("sweep.own", "OP_SWEEP_OWN", 5, Q, nc=2, timeout=1800), G("sweep.own.swap", "OP_SWEEP_OWN", 5, Q, ["SWAP"], nc=2, timeout=1800),
        G("mark_item", "OP_MARK_ITEM", 5, Q, rc=RC + ["GC_Recurse:verif_recurse_stub"]),
        G("recurse", "OP_RECURSE", 5, Q, rc=RC + ["GC_Mark_Item:verif_item_stub"]),
        G("mark_top", "OP_MARK_TOP", 5, Q, rc=RC + ["GC_Mark_Item:verif_item_stub", "GC_Recurse:verif_recurse_stub"])]
